@@ -35,6 +35,40 @@ def ecs_family(ctx, thorough):
             raise vf.MachineryError("ecs replay ran no cases")
 
 
+def denial_family(ctx, thorough):
+    """EcsDenial.tla: ECS- and CD-carrying queries neither consume nor create shared synthesised denials."""
+    ctx.tlc("Ecs", "EcsDenial.tla", "MC_EcsDenial.cfg", workers=2, timeout=300, heap="2g")
+    for cfg, want in (("MC_EcsDenial_mutant.cfg", ("NeverCreates", "NeverConsumes")), ("MC_EcsDenial_reach.cfg", ("NeverSynth",))):
+        r = ctx.tlc("Ecs", "EcsDenial.tla", cfg, workers=2, timeout=300, heap="2g", must_pass=False, count=False, tag="must-fail")
+        if r.violated not in want:
+            raise vf.MachineryError("%s: expected %s to fail, got %r" % (cfg, want, r.violated))
+    behs = ctx.tlc_behaviours("Ecs", "EcsDenial.tla", "Sim_EcsDenial.cfg", num=150 if not thorough else 2000, depth=7)
+    out, seen = [], set()
+    for b in behs:
+        steps = []
+        for i in range(1, len(b)):
+            m = re.match(r'Ask\("(\w+)",\s*"(\w+)"\)', b[i][0])
+            if not m:
+                raise vf.MachineryError("unexpected label " + b[i][0])
+            steps.append({"kind": m.group(1), "born": m.group(2), "out": b[i][1]["last"]["out"], "cut": bool(b[i - 1][1]["cut"])})
+        k = repr(steps)
+        if steps and k not in seen:
+            seen.add(k)
+            out.append({"steps": steps})
+            ctx._distinct.add("ecsdenial:" + k)
+    if len(out) < 30:
+        raise vf.MachineryError("EcsDenial simulation produced only %d behaviours" % len(out))
+    res = ctx.go_driver("./c19", "TestEcsDenialBypass", {"behaviours": out}, name="ecs_denial", timeout=900)
+    ctx.take_driver_result(res, "[EcsDenial] ")
+    cnt = res.get("counters", {})
+    ctx.cov["replay"]["ecs_denial"] = {"behaviours": len(out), "cases": res["cases"], "drift": res["drift"],
+                                       "drift_notes": res.get("drift_notes", [])[:5], "counters": cnt}
+    if res.get("skipped"):
+        raise vf.MachineryError("EcsDenial replay skipped: %s" % res["skipped"][:3])
+    if cnt.get("synthesised", 0) < 10 and not res.get("violations"):
+        raise vf.MachineryError("vacuous: the shared cut was hardly ever used (%s)" % cnt)
+
+
 def run(ctx, replay):
     thorough = ctx.tier == "thorough"
     ctx.cov["rule"] = ("cases = behaviours of Serve.tla's ecs and cookies families (ECS policy off/on/invalid x client "
@@ -46,6 +80,7 @@ def run(ctx, replay):
     sc.regression_model(ctx)
     sc.replay(ctx, "C19", fams, num=500 if not thorough else 6000, variants=2 if not thorough else 4)
     ecs_family(ctx, thorough)
+    denial_family(ctx, thorough)
     # forwarder mode: what leaves toward a configured upstream carries no client option except the clamped ECS (Forward.tla)
     ctx.overlay_tags.add("x11fw")
     import os
